@@ -41,6 +41,8 @@ def ty_src(t):
         return "{%s}" % ", ".join("%s : %s" % (f, ty_src(u)) for f, u in t[1])
     if k == "enum":
         return "[| %s |]" % ", ".join("'" + x for x in t[1])
+    if k == "dict":
+        return "{_ : %s}" % ty_src(t[1])
     raise ValueError(t)
 
 
@@ -56,6 +58,8 @@ def ty_sexp(t):
         return "(rec %s)" % " ".join('("%s" %s)' % (f, ty_sexp(u)) for f, u in t[1])
     if k == "enum":
         return "(enum %s)" % " ".join('"%s"' % x for x in t[1])
+    if k == "dict":
+        return "(dict %s)" % ty_sexp(t[1])
     if k == "tvar":
         return "(tvar %d)" % t[1]
     if k == "forall":
@@ -67,7 +71,7 @@ def first_order(t):
     k = t[0]
     if k in ("num", "str", "bool", "dyn", "enum"):
         return True
-    if k == "arr":
+    if k in ("arr", "dict"):
         return first_order(t[1])
     if k == "rec":
         return all(first_order(u) for _, u in t[1])
@@ -89,7 +93,9 @@ class N:
 # infix primitives: source operator, model primitive name
 INFIX = {"add": "+", "sub": "-", "mul": "*", "div": "/", "lt": "<", "le": "<=", "gt": ">", "ge": ">=",
          "concat": "++", "arrcat": "@", "eq": "=="}
-STDFN = {"strlen": "std.string.length", "arrlen": "std.array.length", "arrat": "std.array.at", "arrmap": "std.array.map"}
+STDFN = {"strlen": "std.string.length", "arrlen": "std.array.length", "arrat": "std.array.at", "arrmap": "std.array.map",
+         "recfields": "std.record.fields", "recvalues": "std.record.values", "rechas": "std.record.has_field",
+         "recget": "std.record.get"}
 
 TV0, TV1 = ("tvar", 0), ("tvar", 1)
 # polymorphic helpers bound at the top of (some) programs:
@@ -132,12 +138,14 @@ class Frag:
         r = self.rng
         opts = [(NUM, 5), (STR, 3), (BOOL, 3)]
         if depth > 0:
-            opts += [("arr", 3), ("rec", 3), ("enum", 2)]
+            opts += [("arr", 3), ("rec", 3), ("enum", 2), ("dict", 1)]
             if fun_ok:
                 opts += [("fun", 2)]
         c = r.weighted(opts)
         if c == "arr":
             return ("arr", self.gen_type(depth - 1, fun_ok))
+        if c == "dict":
+            return ("dict", self.gen_type(depth - 1, fun_ok))
         if c == "rec":
             n = r.range(1, 3)
             fs = sorted(r.shuffle(FIELDS)[:n])
@@ -172,6 +180,15 @@ class Frag:
             return N("rec", [[(f, self.gen(ctx, u, max(1, size // (len(T[1]) + 1)))) for f, u in T[1]]], T)
         if k == "enum":
             return N("tag", [r.choice(T[1])], T)
+        if k == "dict":
+            # a record literal (whose own type is a record type) used where a dictionary is expected
+            fs = sorted(r.shuffle(FIELDS)[:r.range(0, 3)])
+            R = ("rec", tuple((f, T[1]) for f in fs))
+            self.features.add("record<:dict (literal)")
+            lit = N("sub", [N("rec", [[(f, self.gen(ctx, T[1], max(1, size // (len(fs) + 1)))) for f in fs]], R)], T)
+            # mostly in a checking position (under an annotation); a bare literal in an inference position
+            # gets its record type from the typechecker and may be rejected (e.g. as an if-branch)
+            return N("annt", [lit], T) if r.chance(4, 5) else lit
         if k == "fun":
             x = self.fresh()
             self.features.add("lambda")
@@ -202,7 +219,20 @@ class Frag:
             prods += [("concat", 3)]
         if k == "arr":
             prods += [("arrcat", 2), ("map", 3)]
-        prods += [("proj", 2), ("match", 2), ("at", 1)]
+        prods += [("proj", 2), ("match", 2), ("at", 1), ("recget", 1)]
+        if k == "dict":
+            subvars = [x for (x, U) in ctx if U[0] == "rec" and U[1] and all(u == T[1] for _, u in U[1])]
+            if subvars:
+                prods.append(("subvar", 6))
+            prods.append(("sublet", 2))
+        if k == "arr" and T[1][0] == "dict":
+            prods.append(("subarr", 3))
+        if k == "arr" and T[1] == STR:
+            prods.append(("recfields", 2))
+        if k == "arr":
+            prods.append(("recvalues", 2))
+        if k == "bool":
+            prods.append(("rechas", 1))
         if self.polys:
             prods.append(("poly", 3))
         p = r.weighted(prods)
@@ -292,6 +322,40 @@ class Frag:
             d = self.gen(ctx, T, max(1, h // len(tags))) if default else None
             self.features.add("match-default" if default else "match")
             return N("match", [s, bs, d], T)
+        if p == "subvar":
+            x = r.choice(subvars)
+            self.features.add("record<:dict (variable)")
+            return N("sub", [N("var", [x], dict(ctx)[x])], T)
+        if p == "sublet":
+            # let x = {..record..} in x   used at the dictionary type: subsumption at a variable
+            fs = sorted(r.shuffle(FIELDS)[:r.range(1, 3)])
+            R = ("rec", tuple((f, T[1]) for f in fs))
+            x = self.fresh()
+            e = self.gen(ctx, R, h)
+            self.features.add("record<:dict (variable)")
+            return N("let", [x, R if r.chance(1, 2) else None, e, N("sub", [N("var", [x], R)], T)], T)
+        if p == "subarr":
+            fs = sorted(r.shuffle(FIELDS)[:r.range(1, 2)])
+            R = ("rec", tuple((f, T[1][1]) for f in fs))
+            x = self.fresh()
+            e = self.gen(ctx, ("arr", R), h)
+            self.features.add("Array record<:Array dict")
+            return N("let", [x, None, e, N("sub", [N("var", [x], ("arr", R))], T)], T)
+        if p == "recfields":
+            U = self.gen_type(1, False)
+            self.features.add("std.record.fields")
+            return N("prim1", ["recfields", self.gen(ctx, ("dict", U), size - 1)], T, x=[U])
+        if p == "recvalues":
+            self.features.add("std.record.values")
+            return N("prim1", ["recvalues", self.gen(ctx, ("dict", T[1]), size - 1)], T, x=[T[1]])
+        if p == "rechas":
+            U = self.gen_type(1, False)
+            self.features.add("std.record.has_field")
+            return N("prim2", ["rechas", N("str", [r.choice(FIELDS)], STR), self.gen(ctx, ("dict", U), h)], T, x=[U])
+        if p == "recget":
+            self.err_sources += 1
+            self.features.add("std.record.get")
+            return N("prim2", ["recget", N("str", [r.choice(FIELDS)], STR), self.gen(ctx, ("dict", T), h)], T, x=[T])
         if p == "at":
             self.err_sources += 1
             self.features.add("std.array.at")
@@ -344,6 +408,9 @@ class Frag:
             base = N("arr", [[self.untyped_value(T[1], depth + 1) for _ in range(r.range(0, 2))]])
         elif k == "rec":
             base = N("rec", [[(f, self.untyped_value(u, depth + 1)) for f, u in T[1]]])
+        elif k == "dict":
+            fs = sorted(r.shuffle(FIELDS)[:r.range(0, 2)])
+            base = N("rec", [[(f, self.untyped_value(T[1], depth + 1)) for f in fs]])
         else:
             raise ValueError(T)
         base.ty = None
@@ -383,6 +450,9 @@ class Frag:
                 return self.untyped_value(("arr", r.choice(inner)))
             if T[0] == "enum":
                 return self.untyped_value(("enum", ("Zz",)))
+            if T[0] == "dict" and r.chance(1, 2):
+                inner = [U for U in [NUM, STR, BOOL] if U[0] != T[1][0]]
+                return self.untyped_value(("rec", (("fa", r.choice(inner)),)))
             if not others:
                 return self.untyped_value(T)
             return self.untyped_value(r.choice(others))
@@ -551,6 +621,8 @@ class Printer:
             self.out("(")
             self.term(a[0])
             self.out(" : %s)" % ty_src(n.ty))
+        elif k == "sub":
+            self.term(a[0])
         elif k == "hole":
             self.out("(")
             h0 = self.pos
@@ -619,6 +691,8 @@ def to_sexp(n):
         return "(annt %s %s)" % (to_sexp(a[0]), ty_sexp(n.ty))
     if k == "hole":
         return "(cast (untyped %s) %s)" % (to_sexp(a[0]), ty_sexp(n.ty))
+    if k == "sub":
+        return to_sexp(a[0])
     raise ValueError(k)
 
 
@@ -674,6 +748,8 @@ def to_cert(n):
         return "(aannt %s %s)" % (to_cert(a[0]), ty_sexp(n.ty))
     if k == "hole":
         return "(acast (auntyped %s) %s)" % (to_sexp(a[0]), ty_sexp(n.ty))
+    if k == "sub":
+        return "(asub %s %s)" % (to_cert(a[0]), ty_sexp(n.ty))
     raise ValueError(k)
 
 
@@ -697,6 +773,9 @@ def conv_tc_type(t):
     if h == "fun":
         a, b = conv_tc_type(t[1]), conv_tc_type(t[2])
         return ("fun", a, b) if a and b else None
+    if h == "dict":
+        u = conv_tc_type(t[2])
+        return ("dict", u) if u else None
     if h == "rec":
         fs = []
         for r in t[1]:
@@ -733,11 +812,18 @@ def ty_match(real, want):
         return want[0] == "enum" and set(real[1]) <= set(want[1])
     if k == "rec-open":
         return want[0] == "rec" and all(any(f == g and ty_match(u, v) for g, v in want[1]) for f, u in real[1])
+    if k == "rec" and want[0] == "dict":
+        # the typechecker inferred the record type where the certificate already uses the dictionary
+        # type it is subsumed to later (both are declarative derivations)
+        return all(ty_match(u, want[1]) for _, u in real[1])
+    if k == "dict" and want[0] == "rec":
+        # a record literal checked directly against a dictionary type (its own type is the record type)
+        return all(ty_match(real[1], v) for _, v in want[1])
     if k != want[0]:
         return False
     if k in ("num", "str", "bool", "dyn"):
         return True
-    if k == "arr":
+    if k in ("arr", "dict"):
         return ty_match(real[1], want[1])
     if k == "fun":
         return ty_match(real[1], want[1]) and ty_match(real[2], want[2])
@@ -786,7 +872,7 @@ def compare_with_tc(prog, terms):
 
 # ---------------------------------------------------------------------- comparing outcomes
 
-ALLOWED_EQUIV = {"Index": {"OtherErr", "Blame+", "Blame-"}}
+ALLOWED_EQUIV = {"Index": {"OtherErr", "Blame+", "Blame-"}, "KeyMissing": {"Blame-", "FieldMissing"}}
 DYN_TYPE_ERRS = {"TypeErr", "NotAFunc", "FieldMissing", "NonExhaustive", "UnboundId"}
 
 
@@ -890,9 +976,9 @@ def default_type(t):
         return NUM
     if k in ("num", "str", "bool", "dyn"):
         return t
-    if k == "arr":
+    if k in ("arr", "dict"):
         u = default_type(t[1])
-        return ("arr", u) if u else None
+        return (k, u) if u else None
     if k == "fun":
         a, b = default_type(t[1]), default_type(t[2])
         return ("fun", a, b) if a and b else None
@@ -916,8 +1002,8 @@ def rigid_type(t, names):
         return ("tvar", names.index(t[1])) if t[1] in names else NUM
     if k == "any":
         return NUM
-    if k == "arr":
-        return ("arr", rigid_type(t[1], names))
+    if k in ("arr", "dict"):
+        return (k, rigid_type(t[1], names))
     if k == "fun":
         return ("fun", rigid_type(t[1], names), rigid_type(t[2], names))
     return default_type(t)
@@ -930,24 +1016,66 @@ def match_poly(poly, inst, out):
         return True
     if poly[0] != inst[0]:
         return False
-    if poly[0] in ("arr",):
+    if poly[0] in ("arr", "dict"):
         return match_poly(poly[1], inst[1], out)
     if poly[0] == "fun":
         return match_poly(poly[1], inst[1], out) and match_poly(poly[2], inst[2], out)
     return True
 
 
+def py_subb(a, b):
+    """python mirror of Checker.subb (used to decide where to put an ASub; the Coq checker re-decides)"""
+    if a == b:
+        return True
+    if a[0] == "rec" and b[0] == "dict":
+        return all(py_subb(t, b[1]) for _, t in a[1])
+    if a[0] == "arr" and b[0] == "arr":
+        return py_subb(a[1], b[1])
+    if a[0] == "dict" and b[0] == "dict":
+        return py_subb(a[1], b[1])
+    if a[0] == "rec" and b[0] == "rec":
+        return len(a[1]) == len(b[1]) and all(f == g and py_subb(t, u) for (f, t), (g, u) in zip(a[1], b[1]))
+    return False
+
+
+def subst_tvars(t, insts):
+    """instantiate the de Bruijn variables of a helper's body type; insts[i] is the type for tvar i"""
+    k = t[0]
+    if k == "tvar":
+        return insts[t[1]]
+    if k in ("arr", "dict"):
+        return (k, subst_tvars(t[1], insts))
+    if k == "fun":
+        return ("fun", subst_tvars(t[1], insts), subst_tvars(t[2], insts))
+    return t
+
+
+PRIM_SIGS = {   # name -> (number of quantifiers, argument types, result type) with ("tvar", i)
+    "add": (0, [NUM, NUM], NUM), "sub": (0, [NUM, NUM], NUM), "mul": (0, [NUM, NUM], NUM), "div": (0, [NUM, NUM], NUM),
+    "lt": (0, [NUM, NUM], BOOL), "le": (0, [NUM, NUM], BOOL), "gt": (0, [NUM, NUM], BOOL), "ge": (0, [NUM, NUM], BOOL),
+    "not": (0, [BOOL], BOOL), "concat": (0, [STR, STR], STR), "strlen": (0, [STR], NUM),
+    "arrlen": (1, [("arr", TV0)], NUM), "arrat": (1, [NUM, ("arr", TV0)], TV0),
+    "arrcat": (1, [("arr", TV0), ("arr", TV0)], ("arr", TV0)),
+    "arrmap": (2, [("fun", TV1, TV0), ("arr", TV1)], ("arr", TV0)),
+    "eq": (2, [TV1, TV0], BOOL),
+    "recfields": (1, [("dict", TV0)], ("arr", STR)), "recvalues": (1, [("dict", TV0)], ("arr", TV0)),
+    "rechas": (1, [STR, ("dict", TV0)], BOOL), "recget": (1, [STR, ("dict", TV0)], TV0),
+}
+
+
 class CertBuilder:
-    """Builds the annotated term of Types/Checker.v for a generated AST using only the types the real
-    typechecker resolved for its nodes (harness `tc` rows) -- not the generator's intentions."""
+    """Builds the annotated term of Types/Checker.v for a generated AST.  The builder mirrors the
+    syntax-directed part of a derivation (what Checker.infer recomputes anyway) and takes from the
+    REAL typechecker (harness `tc` rows) exactly the parts a derivation has to guess: the types of
+    lambda-bound variables, the (closed) enum type of every tag, the element type of arrays, the
+    result type of if/match, the instances of polymorphic helpers and primitives.  A subsumption
+    step (ASub) is inserted wherever the type of a subterm differs from the type its context
+    requires.  The generator's own intentions (N.ty) are not consulted."""
 
     def __init__(self, terms, idents):
         self.by = {}
         for (s, e, kind, ty) in terms:
             self.by[(s, e, kind)] = ty
-        self.ids = {}
-        for (s, e, name, ty) in idents:
-            self.ids[(s, e)] = ty
         self.rigid = None     # names of the quantified variables while inside a helper's body
 
     def kind_of(self, nd):
@@ -959,128 +1087,214 @@ class CertBuilder:
             return "App"
         return KIND_OF.get(nd.k)
 
-    def raw(self, nd):
+    def tc(self, nd, need=True):
+        """the type the typechecker resolved for the node (defaulted to a closed fragment type)"""
+        while nd.k == "sub":
+            nd = nd.a[0]
         kind = self.kind_of(nd)
         s, e = nd.span
         ty = None
-        # the span of a parenthesised term includes all its (possibly repeated) parentheses
-        for d in (0, 1, -1, -2, -3):
+        for d in (0, 1, -1, -2, -3):     # a parenthesised term's span includes its (repeated) parentheses
             ty = self.by.get((s + d, e - d, kind))
             if ty is not None:
                 break
         if ty is None:
-            lit = {"num": NUM, "str": STR, "bool": BOOL}.get(nd.k)
-            if lit is not None:
-                return lit
-            raise CertError("the typechecker reported no type for the %s node at %d-%d" % (nd.k, s, e))
+            if need:
+                raise CertError("the typechecker reported no type for the %s node at %d-%d" % (nd.k, s, e))
+            return None
         t = conv_tc_type(ty)
-        if t is None:
-            raise CertError("type outside the fragment at %s %d-%d: %r" % (nd.k, s, e, ty))
-        return t
-
-    def ty(self, nd):
-        t = self.raw(nd)
-        d = rigid_type(t, self.rigid) if self.rigid is not None else default_type(t)
+        d = None if t is None else (rigid_type(t, self.rigid) if self.rigid is not None else default_type(t))
         if d is None:
-            raise CertError("type outside the fragment at %s %d-%d" % (nd.k, nd.span[0], nd.span[1]))
+            raise CertError("type outside the fragment at %s %d-%d: %r" % (nd.k, s, e, ty))
         return d
 
-    def build(self, n):
+    def coerce(self, c, T, want, what):
+        if T == want:
+            return c
+        if py_subb(T, want):
+            return "(asub %s %s)" % (c, ty_sexp(want))
+        raise CertError("%s has type %s where %s is required" % (what, ty_sexp(T), ty_sexp(want)))
+
+    def join(self, n, parts, what):
+        """common type of the branches: the first branch's, else the typechecker's type of the whole node"""
+        want = parts[0][1]
+        if not all(py_subb(T, want) for _, T in parts):
+            w2 = self.tc(n, need=False)
+            if w2 is not None and all(py_subb(T, w2) for _, T in parts):
+                want = w2
+        return want, [self.coerce(c, T, want, what) for c, T in parts]
+
+    def build(self, n, env, want=None):
+        """-> (certificate, type); `want` is the type the context requires (checking mode): it is pushed
+        through lambdas, lets, branches and annotations, and a subsumption step is inserted when the
+        type obtained is a proper subtype of it"""
+        c, T = self.build1(n, env, want)
+        if want is not None and T != want and py_subb(T, want):
+            return "(asub %s %s)" % (c, ty_sexp(want)), want
+        return c, T
+
+    def build1(self, n, env, want):
         k, a = n.k, n.a
+        if k == "sub":
+            return self.build(a[0], env, want)
         if k == "num":
-            return "(anum %d %d)" % tuple(a)
+            return "(anum %d %d)" % tuple(a), NUM
         if k == "str":
-            return "(astr %s)" % sstr(a[0])
+            return "(astr %s)" % sstr(a[0]), STR
         if k == "bool":
-            return "(abool %s)" % ("true" if a[0] else "false")
+            return "(abool %s)" % ("true" if a[0] else "false"), BOOL
         if k == "var":
-            return '(avar "%s" ())' % a[0]
+            if a[0] not in env:
+                raise CertError("unbound %s" % a[0])
+            if env[a[0]][0] == "poly":
+                raise CertError("polymorphic helper %s used outside an application" % a[0])
+            return '(avar "%s" ())' % a[0], env[a[0]]
         if k == "tag":
-            t = self.ty(n)
-            if t[0] != "enum":
-                raise CertError("tag typed %r" % (t,))
-            return '(atag "%s" (%s))' % (a[0], " ".join('"%s"' % x for x in t[1]))
+            t = self.tc(n)
+            if t[0] != "enum" or a[0] not in t[1]:
+                raise CertError("tag %s typed %r" % (a[0], t))
+            return '(atag "%s" (%s))' % (a[0], " ".join('"%s"' % x for x in t[1])), t
         if k == "lam":
-            t = self.ty(n)
+            t = self.tc(n)
             if t[0] != "fun":
                 raise CertError("lambda typed %r" % (t,))
-            return '(alam "%s" %s %s)' % (a[0], ty_sexp(t[1]), self.build(a[1]))
+            e2 = dict(env)
+            e2[a[0]] = t[1]
+            cb, B = self.build(a[1], e2, want[2] if want is not None and want[0] == "fun" else None)
+            return '(alam "%s" %s %s)' % (a[0], ty_sexp(t[1]), cb), ("fun", t[1], B)
         if k == "app":
             f, arg = a
-            if f.k == "var" and f.a[0] in POLY:
+            ca, Ta = self.build(arg, env)
+            if f.k == "var" and env.get(f.a[0], ("",))[0] == "poly":
                 nq = POLY[f.a[0]][0]
                 body = POLY[f.a[0]][2]().ty
-                inst_ty = ("fun", self.ty(arg), self.ty(n))
                 out = {}
-                if not match_poly(body, inst_ty, out):
-                    raise CertError("instance of %s does not match: %r" % (f.a[0], inst_ty))
-                insts = [out.get(nq - 1 - i, NUM) for i in range(nq)]     # outermost quantifier first
-                return '(aapp (avar "%s" %s) %s)' % (f.a[0], insts_sexp(insts), self.build(arg))
-            return "(aapp %s %s)" % (self.build(f), self.build(arg))
+                res = self.tc(n, need=False)
+                if not match_poly(body, ("fun", Ta, res if res is not None else ("fun", NUM, NUM)), out):
+                    out = {}
+                    if not match_poly(body[1], Ta, out):
+                        raise CertError("instance of %s does not match the argument type %s" % (f.a[0], ty_sexp(Ta)))
+                insts_by_var = [out.get(i, NUM) for i in range(nq)]
+                Tf = subst_tvars(body, insts_by_var)
+                cf = '(avar "%s" %s)' % (f.a[0], insts_sexp([insts_by_var[nq - 1 - i] for i in range(nq)]))
+            else:
+                cf, Tf = self.build(f, env)
+            if Tf[0] != "fun":
+                raise CertError("application of a term of type %s" % ty_sexp(Tf))
+            return "(aapp %s %s)" % (cf, self.coerce(ca, Ta, Tf[1], "argument")), Tf[2]
         if k == "let":
-            e = self.build(a[2])
+            ce, Te = self.build(a[2], env, a[1])
             if a[1] is not None:
-                e = "(aannt %s %s)" % (e, ty_sexp(a[1]))
-            return '(alet "%s" 0 %s %s)' % (a[0], e, self.build(a[3]))
+                ce = "(aannt %s %s)" % (self.coerce(ce, Te, a[1], "annotated binding"), ty_sexp(a[1]))
+                Te = a[1]
+            e2 = dict(env)
+            e2[a[0]] = Te
+            cb, Tb = self.build(a[3], e2, want)
+            return '(alet "%s" 0 %s %s)' % (a[0], ce, cb), Tb
         if k == "plet":
             nq = a[1]
             self.rigid = ["b", "a"][-nq:] if nq == 2 else ["a"]
             try:
-                body = self.build(a[3])
+                ce, Te = self.build(a[3], env)
             finally:
                 self.rigid = None
-            return '(alet "%s" %d %s %s)' % (a[0], nq, body, self.build(a[4]))
+            if Te != POLY[a[0]][2]().ty:
+                raise CertError("helper %s has body type %s" % (a[0], ty_sexp(Te)))
+            e2 = dict(env)
+            e2[a[0]] = ("poly", a[0])
+            cb, Tb = self.build(a[4], e2, want)
+            return '(alet "%s" %d %s %s)' % (a[0], nq, ce, cb), Tb
         if k == "if":
-            return "(aif %s %s %s)" % tuple(self.build(x) for x in a)
+            cc, Tc = self.build(a[0], env)
+            w2, (ct, ce) = self.join(n, [self.build(a[1], env, want), self.build(a[2], env, want)], "if branch")
+            return "(aif %s %s %s)" % (self.coerce(cc, Tc, BOOL, "condition"), ct, ce), w2
         if k == "arr":
-            t = self.ty(n)
+            t = self.tc(n)
             if t[0] != "arr":
                 raise CertError("array typed %r" % (t,))
-            return "(aarr %s (%s))" % (ty_sexp(t[1]), " ".join(self.build(e) for e in a[0]))
+            elw = want[1] if want is not None and want[0] == "arr" else None
+            parts = [self.build(e, env, elw) for e in a[0]]
+            el = elw if elw is not None and all(py_subb(T, elw) for _, T in parts) else t[1]
+            if parts and not all(py_subb(T, el) for _, T in parts):
+                el = parts[0][1]
+            return "(aarr %s (%s))" % (ty_sexp(el), " ".join(self.coerce(c, T, el, "array element") for c, T in parts)), ("arr", el)
         if k == "rec":
-            return "(arec %s)" % " ".join('("%s" %s)' % (f, self.build(e)) for f, e in a[0])
-        if k == "proj":
-            return '(aproj %s "%s")' % (self.build(a[0]), a[1])
-        if k == "match":
-            bs = "(%s)" % " ".join('("%s" %s)' % (t, self.build(b)) for t, b in a[1])
-            d = (" " + self.build(a[2])) if a[2] is not None else ""
-            return "(amatch %s %s %s%s)" % (self.build(a[0]), ty_sexp(self.ty(n)), bs, d)
-        if k == "prim2":
-            nm = a[0]
-            if nm == "arrcat":
-                insts = [self.elem(self.ty(n))]
-            elif nm == "arrmap":
-                insts = [self.elem(self.ty(a[2])), self.elem(self.ty(n))]
-            elif nm == "arrat":
-                insts = [self.elem(self.ty(a[2]))]
-            elif nm == "eq":
-                insts = [self.ty(a[1]), self.ty(a[2])]
+            if want is not None and want[0] == "dict":
+                fw = {f: want[1] for f, _ in a[0]}
+            elif want is not None and want[0] == "rec":
+                fw = dict(want[1])
             else:
-                insts = []
-            return "(aapp (aapp (aprim %s %s) %s) %s)" % (nm, insts_sexp(insts), self.build(a[1]), self.build(a[2]))
-        if k == "prim1":
-            insts = [self.elem(self.ty(a[1]))] if a[0] == "arrlen" else []
-            return "(aapp (aprim %s %s) %s)" % (a[0], insts_sexp(insts), self.build(a[1]))
-        if k == "and":
-            return "(aif %s %s (abool false))" % (self.build(a[0]), self.build(a[1]))
-        if k == "or":
-            return "(aif %s (abool true) %s)" % (self.build(a[0]), self.build(a[1]))
+                fw = {}
+            parts = [(f, self.build(e, env, fw.get(f))) for f, e in a[0]]
+            return ("(arec %s)" % " ".join('("%s" %s)' % (f, c) for f, (c, _) in parts),
+                    ("rec", tuple((f, T) for f, (_, T) in parts)))
+        if k == "proj":
+            ce, Te = self.build(a[0], env)
+            if Te[0] != "rec" or a[1] not in dict(Te[1]):
+                raise CertError("projection .%s from %s" % (a[1], ty_sexp(Te)))
+            return '(aproj %s "%s")' % (ce, a[1]), dict(Te[1])[a[1]]
+        if k == "match":
+            cs, Ts = self.build(a[0], env)
+            if Ts[0] != "enum":
+                raise CertError("match on %s" % ty_sexp(Ts))
+            parts = [self.build(b, env, want) for _, b in a[1]] + ([self.build(a[2], env, want)] if a[2] is not None else [])
+            if not parts:
+                raise CertError("match without arms")
+            w2, cs2 = self.join(n, parts, "match arm")
+            bs = "(%s)" % " ".join('("%s" %s)' % (t, c) for (t, _), c in zip(a[1], cs2))
+            d = (" " + cs2[-1]) if a[2] is not None else ""
+            return "(amatch %s %s %s%s)" % (cs, ty_sexp(w2), bs, d), w2
+        if k in ("prim2", "prim1"):
+            nm = a[0]
+            nq, params, res = PRIM_SIGS[nm]
+            args = [self.build(x, env) for x in a[1:]]
+            if len(args) != len(params):
+                raise CertError("arity of %s" % nm)
+            out = {}
+            for P, (_, T) in zip(params, args):
+                self.match_up_to_sub(P, T, out)
+            if any(i not in out for i in range(nq)):
+                # e.g. the element type of an empty array / dictionary: what the typechecker resolved
+                r = self.tc(n, need=False)
+                if r is not None:
+                    match_poly(res, r, out)
+            iv = [out.get(i, NUM) for i in range(nq)]
+            cargs = [self.coerce(c, T, subst_tvars(P, iv), "operand of " + nm) for P, (c, T) in zip(params, args)]
+            head = "(aprim %s %s)" % (nm, insts_sexp([iv[nq - 1 - i] for i in range(nq)]))
+            for c in cargs:
+                head = "(aapp %s %s)" % (head, c)
+            return head, subst_tvars(res, iv)
+        if k in ("and", "or"):
+            (c1, T1), (c2, T2) = self.build(a[0], env), self.build(a[1], env)
+            c1, c2 = self.coerce(c1, T1, BOOL, "operand"), self.coerce(c2, T2, BOOL, "operand")
+            return ("(aif %s %s (abool false))" % (c1, c2) if k == "and" else "(aif %s (abool true) %s)" % (c1, c2)), BOOL
         if k == "annt":
-            return "(aannt %s %s)" % (self.build(a[0]), ty_sexp(n.ty if n.x is None else n.x))
+            ce, Te = self.build(a[0], env, n.ty)
+            return "(aannt %s %s)" % (self.coerce(ce, Te, n.ty, "annotated term"), ty_sexp(n.ty)), n.ty
         if k == "hole":
-            return "(acast (auntyped %s) %s)" % (to_sexp(a[0]), ty_sexp(n.ty))
+            return "(acast (auntyped %s) %s)" % (to_sexp(a[0]), ty_sexp(n.ty)), n.ty
         raise CertError("node %s" % k)
 
-    def elem(self, t):
-        if t[0] != "arr":
-            raise CertError("array expected, typed %r" % (t,))
-        return t[1]
+    def match_up_to_sub(self, P, T, out):
+        """instantiate the parameter type P so that the argument type T is a subtype of it"""
+        if P[0] == "tvar":
+            out.setdefault(P[1], T)
+        elif P[0] == "dict" and T[0] == "rec":
+            if T[1]:
+                self.match_up_to_sub(P[1], T[1][0][1], out)
+        elif P[0] in ("arr", "dict") and T[0] == P[0]:
+            self.match_up_to_sub(P[1], T[1], out)
+        elif P[0] == "fun" and T[0] == "fun":
+            self.match_up_to_sub(P[1], T[1], out)
+            self.match_up_to_sub(P[2], T[2], out)
 
 
 def cert_from_tc(prog, terms, idents):
     """-> (certificate s-expression, None) or (None, reason)"""
     try:
-        return CertBuilder(terms, idents).build(prog["ast"]), None
+        cb = CertBuilder(terms, idents)
+        c, T = cb.build(prog["ast"], {}, prog["type"])
+        return cb.coerce(c, T, prog["type"], "the block"), None
     except CertError as ex:
         return None, str(ex)
 
@@ -1119,7 +1333,8 @@ def typed_nodes(n, acc):
 OTHER_PRIM2 = {"add": ["concat", "lt", "arrcat"], "sub": ["concat", "eq"], "mul": ["concat", "le"], "div": ["concat"],
                "lt": ["add", "concat"], "le": ["sub"], "gt": ["mul"], "ge": ["concat"],
                "concat": ["add", "arrcat", "lt"], "arrcat": ["concat", "add"], "eq": ["add", "concat", "lt"],
-               "arrat": ["arrmap", "add"], "arrmap": ["arrat", "arrcat"]}
+               "arrat": ["arrmap", "add", "recget"], "arrmap": ["arrat", "arrcat"],
+               "recget": ["arrat", "rechas"], "rechas": ["recget", "concat"]}
 
 
 def other_type(T, rng):
@@ -1137,14 +1352,14 @@ def mutate(prog, rng):
         n = rng.choice(nodes)
         k = n.k
         c = rng.below(10)
-        if k == "prim2" and c < 5:
+        if k == "prim2" and c < 5 and n.a[0] in OTHER_PRIM2:
             n.a[0] = rng.choice(OTHER_PRIM2[n.a[0]])
             what = "swap-primitive"
         elif k == "prim2" and c < 7:
             n.a[1], n.a[2] = n.a[2], n.a[1]
             what = "swap-operands"
         elif k == "prim1":
-            n.a[0] = rng.choice([x for x in ["strlen", "arrlen", "not"] if x != n.a[0]])
+            n.a[0] = rng.choice([x for x in ["strlen", "arrlen", "not", "recfields", "recvalues"] if x != n.a[0]])
             what = "swap-primitive"
         elif k in ("num", "str", "bool"):
             k2 = rng.choice([x for x in ["num", "str", "bool"] if x != k])
